@@ -16,9 +16,11 @@ import time
 
 VERIF = os.path.dirname(os.path.dirname(os.path.abspath(__file__)))
 COQ = os.path.join(VERIF, "coq")
-WORK = os.path.join(VERIF, "work")
+REPO = os.environ.get("VERIF_REPO", "/repo")   # registered commands always use /repo; the override
+                                               # exists for mutation self-tests on scratch copies
+_ALT = "" if REPO == "/repo" else "alt-" + hashlib.sha256(REPO.encode()).hexdigest()[:8]
+WORK = os.path.join(VERIF, "work", _ALT) if _ALT else os.path.join(VERIF, "work")
 HARNESS = os.path.join(VERIF, "harness")
-REPO = "/repo"
 
 ALLOWED_AXIOMS = [
     # standard-library axioms that may appear (none is expected); anything else fails the run
@@ -109,10 +111,13 @@ FORBIDDEN = re.compile(
 SECTION_ONLY = re.compile(r"^\s*(Variable|Variables|Hypothesis|Hypotheses|Context)\b")
 
 
-def gates():
-    """returns list of problems (empty = pass)"""
+def gates(only=None):
+    """returns list of problems (empty = pass); only = list of files relative to coq/ (default: all)"""
     problems = []
-    files = sorted(glob.glob(os.path.join(COQ, "**", "*.v"), recursive=True))
+    if only is None:
+        files = sorted(glob.glob(os.path.join(COQ, "**", "*.v"), recursive=True))
+    else:
+        files = [os.path.join(COQ, f) for f in only]
     for f in files:
         src = strip_coq_comments(open(f, encoding="utf-8", errors="replace").read())
         depth = 0
@@ -134,9 +139,28 @@ def gates():
 
 
 # ---------------------------------------------------------------- coq build
-def coq_build(timeout=3000, clean=False):
-    """full .vo build through coq_makefile; returns (ok, log)"""
+COQ_DIRS = ["Lib", "Generated", "Model", "Proofs", "Tie", "Props"]
+COQ_HEADER = ("-Q . GoHls\n-arg -w -arg -notation-overridden,-deprecated-hint-without-locality,"
+              "-deprecated-instance-without-locality,-abstract-large-number\n")
+
+
+def gen_coqproject():
+    """_CoqProject lists every .v under the source directories (sorted); rewritten only when it changes"""
+    files = []
+    for d in COQ_DIRS:
+        files += sorted(os.path.relpath(p, COQ) for p in glob.glob(os.path.join(COQ, d, "**", "*.v"), recursive=True))
+    txt = COQ_HEADER + "\n".join(files) + "\n"
+    proj = os.path.join(COQ, "_CoqProject")
+    old = open(proj).read() if os.path.exists(proj) else ""
+    if old != txt:
+        open(proj, "w").write(txt)
+
+
+def coq_build(targets=None, timeout=3000, clean=False):
+    """.vo build through coq_makefile + make (never -vos); targets = list like ['Props/C17.vo']
+    (default: everything). Returns (ok, log)"""
     with Lock("coq"):
+        gen_coqproject()
         mk = os.path.join(COQ, "Makefile")
         proj = os.path.join(COQ, "_CoqProject")
         if clean and os.path.exists(mk):
@@ -145,7 +169,7 @@ def coq_build(timeout=3000, clean=False):
             rc, out = run(["coq_makefile", "-f", "_CoqProject", "-o", "Makefile"], cwd=COQ, timeout=120)
             if rc != 0:
                 return False, out
-        rc, out = run(["make", "-C", COQ, "-j16"], timeout=timeout)
+        rc, out = run(["make", "-C", COQ, "-j16"] + (targets or []), timeout=timeout)
         return rc == 0, out
 
 
@@ -224,12 +248,20 @@ def build_harness(name, tags="verif", race=False, timeout=900):
     os.makedirs(os.path.join(WORK, "bin"), exist_ok=True)
     binp = os.path.join(WORK, "bin", name + ("_race" if race else ""))
     with Lock("go"):
-        shutil.copyfile(os.path.join(REPO, "go.sum"), os.path.join(HARNESS, "go.sum"))
+        hdir = HARNESS
+        if _ALT:
+            # scratch copy of the harness module whose replace directive points at the scratch repo
+            hdir = os.path.join(WORK, "harness")
+            run(["rm", "-rf", hdir])
+            shutil.copytree(HARNESS, hdir)
+            gm = open(os.path.join(hdir, "go.mod")).read().replace("=> /repo", "=> " + REPO)
+            open(os.path.join(hdir, "go.mod"), "w").write(gm)
+        shutil.copyfile(os.path.join(REPO, "go.sum"), os.path.join(hdir, "go.sum"))
         cmd = ["go", "build", "-tags", tags]
         if race:
             cmd.append("-race")
         cmd += ["-o", binp, "./cmd/" + name]
-        rc, out = run(cmd, cwd=HARNESS, env=go_env(), timeout=timeout)
+        rc, out = run(cmd, cwd=hdir, env=go_env(), timeout=timeout)
     return rc == 0, out, binp
 
 
@@ -311,7 +343,7 @@ def load_tie_module(pid):
 
 
 def write_replay(pid, kind, payload):
-    d = os.path.join(VERIF, "replays", pid)
+    d = os.path.join(WORK if _ALT else VERIF, "replays", pid)
     os.makedirs(d, exist_ok=True)
     blob = json.dumps(payload, sort_keys=True, indent=1)
     h = hashlib.sha256(blob.encode()).hexdigest()[:12]
@@ -327,8 +359,11 @@ def main_check(pid, tier, seed, replay=None):
     known = load_known()
     log = []
 
-    # G. gates
-    gp = gates()
+    targets = ["Props/%s.vo" % pid] + list(meta.get("coq_targets", []))
+    closure = sorted(set(sum([coq_closure(t[:-1]) for t in targets], [])))
+
+    # G. gates (over the files this property's theorems and tie depend on; setup scans everything)
+    gp = gates(closure)
     # translators (regenerate coq/Generated from /repo) if the tie has any
     if hasattr(mod, "translate"):
         terr = mod.translate()
@@ -336,11 +371,10 @@ def main_check(pid, tier, seed, replay=None):
             gp.append("translator: " + terr)
 
     # P. proof leg
-    proof_ok, build_log = coq_build()
+    proof_ok, build_log = coq_build(targets)
     ass_ok, ass_text, thms = (False, "", [])
     if proof_ok:
         ass_ok, ass_text, thms = capture_assumptions(pid)
-    closure = coq_closure("Props/%s.v" % pid)
     obligations = count_obligations(closure)
     proof_failed = (not proof_ok) or (not ass_ok) or bool(gp)
     failing_theorem = None
@@ -445,8 +479,9 @@ def main_check(pid, tier, seed, replay=None):
         "violations": len(seen_sig) if violations else (1 if exit_code else 0),
     }
     ev["coverage"].update(tie.extra)
-    os.makedirs(os.path.join(VERIF, "evidence"), exist_ok=True)
-    json.dump(ev, open(os.path.join(VERIF, "evidence", pid + ".json"), "w"), indent=1, sort_keys=True)
+    evdir = os.path.join(WORK if _ALT else VERIF, "evidence")
+    os.makedirs(evdir, exist_ok=True)
+    json.dump(ev, open(os.path.join(evdir, pid + ".json"), "w"), indent=1, sort_keys=True)
     for l in out_lines:
         print(l)
     print("%s %s: proof=%s (%d obligations) tie: %d evaluations, %d distinct non-trivial, %d model mismatches, "
